@@ -24,12 +24,28 @@ def _collect(worker, prop, seed, indices, batch):
     return out
 
 
+def _indices(prop, n):
+    """Half of the sample from the start of the index range, half from behind the systematic sweeps
+    (C13, C16: the first few hundred / thousand plans are sweep plans; the seeded random families -
+    caller-owned lists, sentences started over, requests cut short - begin after them)."""
+    base = 0
+    if prop == "C16":
+        from . import plan_c16
+        base = plan_c16.n_sweep_plans()
+    elif prop == "C13":
+        from . import plan_c13
+        base = plan_c13.N_MUT_PLANS + plan_c13.N_ENTRY_PLANS
+    if not base:
+        return list(range(n))
+    return list(range(n // 2)) + list(range(base, base + n - n // 2))
+
+
 def main(seed, n=None):
     n = int(os.environ.get("VERIF_SELFTEST_PLANS", n or 300))
     bad = 0
     t0 = time.time()
     for prop in ("C13", "C15", "C16"):
-        indices = list(range(n))
+        indices = _indices(prop, n)
         hs_a = C.hash_seed_for(seed, 101, 0)
         hs_b = C.hash_seed_for(seed, 102, 0)
         w1, w2, w3 = C.WorkerProc(hs_a), C.WorkerProc(hs_a), C.WorkerProc(hs_b)
@@ -65,7 +81,7 @@ def main(seed, n=None):
             aggs = []
             for workers in (4, 16):
                 run = C.Run(prop, "quick", s, workers=workers, plans=m)
-                run.indices = list(range(m))
+                run.indices = _indices(prop, m)
                 run.n_plans = m
                 out = run.run()
                 if out["errors"]:
